@@ -124,7 +124,8 @@ def roland_sweep(ctx, rep: Report, cases, rng, full: bool):
     W = GR.random_words
     for vi in range(1 if not full else 3):
         ns = rng.randint(3, 4)
-        samples = {i: GR.Sample(f"Smp {i}", W(rng, rng.choice([50, 4608, 6000])), mode=rng.choice([0, 2, 5]), freq=rng.randrange(6)) for i in range(ns)}
+        # distinct leading-cluster offsets: a file built for one sample must not serve another (S176)
+        samples = {i: GR.Sample(f"Smp {i}", W(rng, rng.choice([50, 4608, 6000])), mode=rng.choice([0, 2, 5]), freq=rng.randrange(6), cluster_top=(i + 1) % 3) for i in range(ns)}
         disc = GR.Disc([GR.Volume("V", [0])], {0: GR.Performance("P", [0])}, {0: GR.Patch("Q", [0])}, {0: GR.Partial("R", list(range(ns)) + [None] * (4 - ns))}, samples)
         img, info = GR.serialize(disc, rng)
         with E.Scratch() as s:
@@ -133,13 +134,18 @@ def roland_sweep(ctx, rep: Report, cases, rng, full: bool):
         if berr or len(base_files) != ns:
             rep.findings.append(Finding("roland-undamaged-performance-fails", {"error": berr, "files": sorted(base_files)}))
             continue
-        k = rng.randrange(ns)
+        k = 0 if vi == 0 else rng.randrange(ns)  # the first image damages the sample that is parsed first
         regions = [("dir", GR.DIR["samp"] + 32 * k, 32), ("par", GR.PAR["samp"][0] + 48 * k, 48)]
+        heads = sorted({info["chains"][i][0] & 0xFF for i in samples if i != k})
         # the damaged images of one base image are independent: the real tool runs on them in forked workers
         tasks = []
         for rname, roff, rlen in regions:
             for pos in range(rlen):
                 vals = range(0, 256, 1 if full and vi == 0 else 37) if full else sorted({0, 0xFF, rng.randrange(256), rng.randrange(256)})
+                if rname == "dir" and pos == 28:
+                    # the FAT entry of the damaged record set to each sibling's chain head (S176), whatever the tier
+                    vals = sorted(set(vals) | set(heads))
+                    rep.feat("roland_fat_entry_set_to_a_siblings_head")
                 for val in vals:
                     if img[roff + pos] != val:
                         tasks.append((rname, roff, pos, val))
@@ -279,7 +285,7 @@ def run(ctx, rep: Report, deep: bool = False):
                 rep.disagreements.append({"family": "akai-damage", "op": c.op, "model": (model or "")[:600], "impl": c.impl[:600], "meta": None})
     rep.families["akai-damage"] = {"cases": len(cases), "disagreements": bad}
     rep.sample({"family": "akai-damage", "case": "entry k, byte position p set to v; ls A:/VOL + export compared with the undamaged run"})
-    rep.required_features = ["damaged_images", "field_name", "field_type", "field_size", "field_start", "multi_byte_damage", "field_boundary_values", "roland_damaged_images", "roland_field_dir", "roland_field_par"]
+    rep.required_features = ["damaged_images", "field_name", "field_type", "field_size", "field_start", "multi_byte_damage", "field_boundary_values", "roland_damaged_images", "roland_field_dir", "roland_field_par", "roland_fat_entry_set_to_a_siblings_head"]
 
 
 def search(ctx, rep: Report):
